@@ -135,7 +135,7 @@ var leafKinds = []string{
 	"deferClosure", "deferArg", "goWait", "sendrecv", "recvStmt", "composite", "structLit", "applyMulti", "panicRecover",
 	"varFunc", "method", "generic", "multilineCall", "multilineExpr", "comment", "blockComment", "returnEarly", "goArg",
 	"ifCondClosure", "labeledIfElse", "closureMultiSig", "twoSingles", "closureSigMultiBodySingle", "selectRecv", "lineComment2",
-	"derefAssign", "derefMulti", "closure1Unicode",
+	"derefAssign", "derefMulti", "closure1Unicode", "returnThenLabel",
 }
 
 var compoundKinds = []string{"if", "ifelse", "ifchain", "ifinit", "for", "range", "switch", "switchinit", "typeswitch", "select",
@@ -612,6 +612,18 @@ func (w *writer) stmt(ind int, n *Node) {
 			w.line(ind+1, "return acc")
 		}
 		w.line(ind, "}")
+	case "returnThenLabel": // statements behind an unconditional return, reached through goto
+		w.line(ind, "acc = func(x int) int {")
+		w.closure++
+		w.line(ind+1, "if x%%7 == %d {", k%7)
+		w.line(ind+2, "goto fail%d", id)
+		w.line(ind+1, "}")
+		w.line(ind+1, "return x + %d", k)
+		w.line(ind, "fail%d:", id)
+		w.line(ind+1, "x -= %d", k)
+		w.line(ind+1, "return x")
+		w.closure--
+		w.line(ind, "}(acc)")
 	case "twoSingles":
 		w.line(ind, "p%d, q%d := func() int { return 1 }, func() int { return %d }", id, id, k)
 		w.line(ind, "acc += p%d() + q%d()", id, id)
